@@ -144,6 +144,14 @@ class HistoryFamily:
         if rng.random() < 0.15:
             return self.gen_shared_disjunction(rng, tier)
         nv = rng.choice([1, 2, 2, 3])
+        if rng.random() < 0.12:
+            # a query with NESTED queries (in condition position, as comparison operands, the(...) under a disjunction): the nodes of a
+            # nested query hold de-duplication state of their own, which every evaluation - also one after an abandoned one - must reset
+            base = gen_query.gen_case_sub(rng, tier)
+            q = dict(sel=base['sel'], cond=base['cond'], binders=base['binders'], form=base['form'])
+            ops = [['take', 0, rng.randint(1, 4)] + (['keep'] if rng.random() < 0.3 else []) for _ in range(rng.randint(1, 2))]
+            ops += [['full', 0], ['full', 0]]
+            return dict(kind='multi', heap=base['heap'], doms=base['doms'], pool=[q], ops=ops, share_terms=False)
         base = gen_query.gen_case(rng, nvars=nv, falsy=True, neg=True, maxdepth=2, select=rng.choice(['all', 'some']), dom_max=3, empty_dom=True)
         while base['cond'] is None:
             base = gen_query.gen_case(rng, nvars=nv, falsy=True, neg=True, maxdepth=2, select=rng.choice(['all', 'some']), dom_max=3, empty_dom=True)
